@@ -27,6 +27,10 @@ for b in raw["bodies"]:
                 p = strip_lt(b["path"]).split("::{closure")[0]
                 out.setdefault(p, {}).setdefault(kind, 0)
                 out[p][kind] += 1
+        if fn and fn.get("def") == "std::sync::OnceLock::<T>::get_or_init":
+            p = strip_lt(b["path"]).split("::{closure")[0]
+            out.setdefault(p, {}).setdefault("memo", 0)
+            out[p]["memo"] += 1
         if fn and fn.get("def") in ("std::option::Option::<T>::and_then", "std::option::Option::<T>::map") and len(t.get("args", [])) == 2 and t["args"][1].get("k") == "const":
             p = strip_lt(b["path"]).split("::{closure")[0]
             out.setdefault(p, {}).setdefault("option_fn", 0)
